@@ -276,12 +276,13 @@ PROPERTIES = {
         assumptions=['the executable model of governor in unit enum_limits (stated in its docstring)'],
     ),
     'C08': dict(
-        category='other',      # three obligations about calls on a network that is gone; the property as a whole is only executed
+        category='other',      # obligations about single calls (on a network that is gone; the shutdown request reaching the manager); the property as a whole is only executed
         units=['active_peers', 'enum_cm'],
         canaries=['active_peers'],
         extra=[validate.shutdown_scenarios, validate.panicking_handler],
-        scope='ONE SENTENCE PROVED, THE REST ONLY EXECUTED. Proved (Verus, unit active_peers): once the network is gone (its active-peer set can no longer be reached) disconnect() fails and changes nothing, peer() '
-              'hands out no handle and rpc() fails instead of being sent. BOUNDED (enum_cm::shutdown_after_history): the real ConnectionManager::shutdown after every history of 3 registrations / disconnects / handler exits: it closes the endpoint before it waits, never waits for a handler nobody will end, its own assertion holds, and it leaves an empty listing, closed connections and a complete event log. Executed on real networks (shutdown_scenarios): a node with a slow inbound request being served, a slow outbound RPC, a dial hanging on a '
+        scope='TWO SENTENCES PROVED, THE REST ONLY EXECUTED. Proved (Verus, unit active_peers): once the network is gone (its active-peer set can no longer be reached) disconnect() fails and changes nothing, peer() '
+              'hands out no handle and rpc() fails instead of being sent; connect() and shutdown() fail on a network whose connection manager is gone (nothing queued), is_closed() reports exactly that; and on a LIVE network shutdown() always '
+              'delivers its request to the connection manager whatever else is queued in the mailbox (it waits for room; `try_send` fails the obligation), connect() delivers exactly one request with exactly the address and expected identity named. BOUNDED (enum_cm::shutdown_after_history): the real ConnectionManager::shutdown after every history of 3 registrations / disconnects / handler exits: it closes the endpoint before it waits, never waits for a handler nobody will end, its own assertion holds, and it leaves an empty listing, closed connections and a complete event log. Executed on real networks (shutdown_scenarios): a node with a slow inbound request being served, a slow outbound RPC, a dial hanging on a '
               'silent socket, a background dial to a dead High-affinity peer, a subscriber, a weak reference and two connected peers is shut down explicitly and by dropping its last handle; everything the statement '
               'lists is observed (bound 1 s, address re-bound at once, service clones dropped, LostPeer for every peer then end-of-stream, weak reference dead, remotes notice, pending and later calls fail); the runtime is '
               'torn down at 4 moments with handles alive and used afterwards.',
